@@ -220,12 +220,28 @@ static void fmt_store(const ph_fmt_t *f, void *row, int x, uint32_t raw, const f
 }
 
 #define FW 128   /* strip width for the format spaces */
-static const char *PRESN[3] = { "", " [source strip read through a flipping transform]", " [mask strip read through a flipping transform]" };
+static const char *PRESN[5] = { "", " [source strip read through a flipping transform]", " [mask strip read through a flipping transform]",
+                                " [destination image has REPEAT_NORMAL set: an alpha-less destination is then flagged opaque and the operator is rewritten]",
+                                " [source image has REPEAT_NORMAL set: an alpha-less source is then flagged opaque and the operator is rewritten]" };
 
 static int valid_premul(const rc_real s[4], const rc_real d[4])
 {
     for (int k = 1; k < 4; k++) if (s[k] > s[0] || d[k] > d[0]) return 0;
     return 1;
+}
+
+/* SATURATE's source factor is min(1, (1-da)/sa): for da = 1 and sa = 0 it is 0/0.  The statement's equations give no value there (it
+ * only matters for a source colour that exceeds its alpha of 0, i.e. not a premultiplied colour); the library's combiner takes 1 and
+ * its operator reduction for an opaque destination (SATURATE -> DST) takes 0.  Such pixels are executed, not judged. */
+static int saturate_undefined(int op, int mode, const rc_real s[4], const rc_real m[4], const rc_real d[4])
+{
+    if (op != PIXMAN_OP_SATURATE || d[0] != 1) return 0;
+    for (int c = 0; c < 4; c++) {
+        rc_real se = mode == RC_MASK_NONE ? s[c] : mode == RC_MASK_UNIFIED ? s[c] * m[0] : s[c] * m[c];
+        rc_real sae = mode == RC_MASK_NONE ? s[0] : mode == RC_MASK_UNIFIED ? s[0] * m[0] : s[0] * m[c];
+        if (sae == 0 && se != 0) return 1;
+    }
+    return 0;
 }
 
 static void fmt_case(uint64_t idx, void *vctx)
@@ -240,7 +256,8 @@ static void fmt_case(uint64_t idx, void *vctx)
     static uint32_t Draw[FW];
     for (uint64_t i = 0; i < n; i++) {
         uint64_t p = p0 + i; uint32_t raw; float fl[4];
-        uint64_t ks = c->pres ? (p / nm) % ns : p % ns, km = c->pres ? p % nm : (p / ns) % nm;
+        int swapped = c->pres == 1 || c->pres == 2;
+        uint64_t ks = swapped ? (p / nm) % ns : p % ns, km = swapped ? p % nm : (p / ns) % nm;
         fmt_make_pixel(&c->sf, ks, &raw, fl, S[i], S8[i]); fmt_store(&c->sf, sbuf, c->pres == 1 ? (int)(n - 1 - i) : (int)i, raw, fl);
         if (c->mode) { fmt_make_pixel(&c->mf, km, &raw, fl, M[i], M8[i]); fmt_store(&c->mf, mbuf, c->pres == 2 ? (int)(n - 1 - i) : (int)i, raw, fl); }
         fmt_make_pixel(&c->df, p / ns / nm, &raw, fl, D[i], D8[i]); fmt_store(&c->df, dbuf, (int)i, raw, fl); Draw[i] = raw;
@@ -251,7 +268,9 @@ static void fmt_case(uint64_t idx, void *vctx)
     pixman_image_t *msk = c->mode ? pixman_image_create_bits(c->mf.code, (int)n, 1, mbuf, sizeof mbuf - 32) : NULL;
     if (!src || !dst || (c->mode && !msk)) { vf_violation("c01-create-failed", "image creation failed for %s/%s/%s", c->sf.name, c->mf.name, c->df.name); return; }
     if (c->mode == RC_MASK_CA) pixman_image_set_component_alpha(msk, 1);
-    if (c->pres) {
+    if (c->pres == 3) pixman_image_set_repeat(dst, PIXMAN_REPEAT_NORMAL);
+    if (c->pres == 4) pixman_image_set_repeat(src, PIXMAN_REPEAT_NORMAL);
+    if (c->pres == 1 || c->pres == 2) {
         pixman_transform_t flip = { { { -pixman_fixed_1, 0, pixman_int_to_fixed((int)n) }, { 0, pixman_fixed_1, 0 }, { 0, 0, pixman_fixed_1 } } };
         pixman_image_t *t = c->pres == 1 ? src : msk;
         pixman_image_set_transform(t, &flip); pixman_image_set_filter(t, PIXMAN_FILTER_NEAREST, NULL, 0);
@@ -276,6 +295,7 @@ static void fmt_case(uint64_t idx, void *vctx)
             rc_real r[4];
             if (!rc_real_pixel(c->op, c->mode, S[i], M[i], D[i], r)) continue;
             if (blend && !valid_premul(S[i], D[i])) continue;
+            if (saturate_undefined(c->op, c->mode, S[i], M[i], D[i])) continue;
             for (int k = (c->df.bpp == 128 ? 0 : 1); k < 4; k++) {
                 rc_real diff = (rc_real)g[k] - r[k]; if (diff < 0) diff = -diff;
                 if (!(diff <= 1e-4L)) {   /* also catches NaN */
@@ -307,6 +327,7 @@ static void fmt_case(uint64_t idx, void *vctx)
             rc_real r[4];
             if (!rc_real_pixel(c->op, c->mode, S[i], M[i], D[i], r)) continue;
             if (blend && !valid_premul(S[i], D[i])) continue;   /* outside the domain of the PDF blend functions: executed, not judged */
+            if (saturate_undefined(c->op, c->mode, S[i], M[i], D[i])) continue;
             for (int k = 0; k < 4; k++) {
                 if (!dw[k]) continue;
                 unsigned u = (got >> dsft[k]) & ((1u << dw[k]) - 1);
@@ -521,9 +542,14 @@ int main(int argc, char **argv)
         int NF = sizeof F / sizeof F[0];
         static const int qops[] = { PIXMAN_OP_SRC, PIXMAN_OP_OVER, PIXMAN_OP_IN_REVERSE, PIXMAN_OP_ATOP, PIXMAN_OP_XOR, PIXMAN_OP_ADD, PIXMAN_OP_SATURATE,
                                     PIXMAN_OP_DISJOINT_OVER, PIXMAN_OP_CONJOINT_IN, PIXMAN_OP_MULTIPLY, PIXMAN_OP_HSL_COLOR };
-        int nops = th ? RC_NOPS : (int)(sizeof qops / sizeof qops[0]);
+        /* quick: the listed operators in full; the other operators that the library's reduction table (operator_table) knows only in the
+         * presentations that select its non-trivial columns (3, 4) */
+        static int qall[RC_NOPS], qreduced_only[RC_NOPS]; int nq = 0;
+        for (unsigned k = 0; k < sizeof qops / sizeof qops[0]; k++) qall[nq++] = qops[k];
+        for (int op2 = PIXMAN_OP_CLEAR; op2 <= PIXMAN_OP_SATURATE; op2++) { int have = 0; for (int k = 0; k < nq; k++) if (qall[k] == op2) have = 1; if (!have) { qreduced_only[nq] = 1; qall[nq++] = op2; } }
+        int nops = th ? RC_NOPS : nq;
         for (int oi = 0; oi < nops; oi++) {
-            int op = th ? rc_all_ops[oi] : qops[oi];
+            int op = th ? rc_all_ops[oi] : qall[oi]; int reduced_only = !th && qreduced_only[oi];
             for (int di = 0; di < NF; di++) for (int si = 0; si < NF; si++) {
                 /* mask presentations: none; a8 unified; a8r8g8b8 component alpha (thorough: also wide and 565 CA masks) */
                 int nmask = th ? 5 : 3;
@@ -541,12 +567,15 @@ int main(int argc, char **argv)
                     uint64_t strips = (total + FW - 1) / FW;
                     uint64_t cap = th ? 2048 : 256;
                     if (strips > cap) strips = cap;
-                    fmt_add(&c, strips);
+                    if (!reduced_only) fmt_add(&c, strips);
                     if (th && mi == 0) { c.cfg = PH_CFG_GENERAL; fmt_add(&c, strips); c.cfg = PH_CFG_DEFAULT; }
                     /* the same strips delivered by the transformed-image fetchers (source, and mask where there is one) */
                     uint64_t vcap = th ? 512 : 64, vs = strips > vcap ? vcap : strips;
-                    if (th || mi || (si % 3 == di % 3)) { c.pres = 1; fmt_add(&c, vs); }
-                    if (mi) { c.pres = 2; fmt_add(&c, vs); }
+                    if (!reduced_only && (th || mi || (si % 3 == di % 3))) { c.pres = 1; fmt_add(&c, vs); }
+                    if (!reduced_only && mi) { c.pres = 2; fmt_add(&c, vs); }
+                    /* the operator-reduction columns: alpha-less destination / source carrying a repeat attribute */
+                    if (!c.df.aw && !c.df.is_float) { c.pres = 3; fmt_add(&c, vs); }
+                    if (!c.sf.aw && !c.sf.is_float) { c.pres = 4; fmt_add(&c, vs); }
                     c.pres = 0;
                 }
             }
@@ -556,8 +585,8 @@ int main(int argc, char **argv)
     vf_space_run("shared-storage-source-and-mask", 2 * 5 * 4 * 3 * 3 * 2 * 2, alias_case, NULL);
     vf_space_run("solid-fill-sources-16bit", (uint64_t)RC_NOPS * 11 * 3 * 4 * 3 * 2, solid_case, NULL);
     vf_bounds = th ? "exact: 13 ops x {none: full 2^32 (sc,sa,dc,da); unified: (sc,sa,ma) full 2^24 x (dc,da) in B8^2 + alpha cube; CA: (sc,mc,ma) full 2^24 x (sa,dc,da) in B6^3 and (sc,sa,mc) full 2^24 x (dc,da) in T^2 x ma in B6 [default chain; boundary alphabets under general-only]}; "
-                     "tolerance: 40 ops x 3 modes x B8^4..6 + full (sa,da) plane; formats: 53 ops x 17x17 format pairs x 5 mask presentations x per-channel {0,1,mid,max-1,max} (first 2048 strips of 128), and again with the source / the mask delivered by the transformed-image fetchers (first 512 strips, mask value fastest); cfgs default+general"
+                     "tolerance: 40 ops x 3 modes x B8^4..6 + full (sa,da) plane; formats: 53 ops x 17x17 format pairs x 5 mask presentations x per-channel {0,1,mid,max-1,max} (first 2048 strips of 128), and again with the source / the mask delivered by the transformed-image fetchers (first 512 strips, mask value fastest), and with REPEAT_NORMAL set on alpha-less destinations / sources (operator reduction); cfgs default+general"
                    : "exact: 13 ops x 3 mask modes x B8^4..6 + (sa,ma,da) full 2^24 cube; tolerance: 40 ops x 3 modes x B8^4..5 (CA: B8^4 x B6^2) + full (sa,da) plane x B6^2; "
-                     "formats: 11 ops x 17x17 format pairs (masked: a third) x per-channel 5-value alphabets (first 256 strips of 128), and again with the source / the mask delivered by the transformed-image fetchers (first 64 strips, mask value fastest); cfgs default+general";
+                     "formats: 11 ops x 17x17 format pairs (masked: a third) x per-channel 5-value alphabets (first 256 strips of 128), and again with the source / the mask delivered by the transformed-image fetchers (first 64 strips, mask value fastest), and with REPEAT_NORMAL set on alpha-less destinations / sources (operator reduction); cfgs default+general";
     return vf_finish();
 }
